@@ -21,7 +21,8 @@ VARIABLES grp, man, hist
 vars == <<grp, man, hist>>
 store == <<grp, man>>
 
-IdOf(m) == CASE m = 1 -> "i1" [] m = 2 -> "i2" [] m = 3 -> "" [] m = 4 -> "i3" [] OTHER -> ""
+\* two members without identity: selections by identity must not confuse them with each other
+IdOf(m) == CASE m = 1 -> "i1" [] m = 2 -> "" [] m = 3 -> "" [] m = 4 -> "i2" [] OTHER -> ""
 Mem(m) == [m |-> m, id |-> IdOf(m)]
 \* all lists of 1..MaxList distinct members
 RECURSIVE ListsOf(_)
